@@ -144,6 +144,17 @@ CHECKS = {
         "tzid_from_dt / localize_utc contracts, the shape-string semantics of vc/pyvc/chars.py. Known findings C03-F1/F3 (float exponent "
         "form), C03-F2 (TIME with Z decoded naive).",
    technique="contract-based deductive verification: AST->z3 VCs (pyvc) over shaped strings and calendar fields; fin for finite types; bounded stand-in"),
+ "C19": dict(
+   category="other", design_ref="DESIGN.md section 8 C19", engine="fstc",
+   text="Static/finite obligations on the real source: canonical_order starts RSCALE, FREQ and keeps the RFC part order, the types table "
+        "maps every RFC part to its value class, to_ical / from_ical / parse_type have the join / split shapes; the text-structure lemma "
+        "(split(';'), split('='), split(',') invert the joins for separator-free atoms, parts without exactly one '=' are skipped, a "
+        "trailing ';' is tolerated) is decided by fstc for ALL strings; every finite part value (weekdays with ordinals, frequencies, "
+        "months incl. leap, SKIP, ints -366..366) is enumerated: separator-free and stable. The per-part dispatch inside to_ical/from_ical, "
+        "the rule grid and the occurrence sets computed by dateutil are a labelled bounded stand-in - hence level 'other', not proof.",
+   note="Trusted: canonsort (C10), the transcribed loop structure of vRecur.to_ical/from_ical (shape checks + comparison with the real "
+        "method), dateutil.rrule as the standard expander (external).",
+   technique="contract-based deductive verification where it applies (fstc text lemma, fin tables/finite codecs, shape rules); bounded stand-in for dispatch and the external expander"),
 }
 NA_REASON = "check not built yet (build round in progress; DESIGN.md section 8 describes the planned contracts)"
 
@@ -155,7 +166,7 @@ def main():
                    "source_commits": [], "add_only": True},
          "engines": [
              {"name": "pyvc", "path": "vc/pyvc", "serves_properties": sorted(CHECKS), "kind_free_text": "symbolic executor over the real functions' AST producing verification conditions, discharged by z3 5.1.0 (cvc5 for z3 unknowns)"},
-             {"name": "fstc", "path": "vc/fstc", "serves_properties": ["C05", "C06", "C07", "C08"], "kind_free_text": "decision procedure for rational string functions (functional transducers): equivalence, image inclusion, shortest counterexamples"},
+             {"name": "fstc", "path": "vc/fstc", "serves_properties": ["C05", "C06", "C07", "C08", "C19"], "kind_free_text": "decision procedure for rational string functions (functional transducers): equivalence, image inclusion, shortest counterexamples"},
              {"name": "fin", "path": "vc/fin", "serves_properties": sorted(CHECKS), "kind_free_text": "exhaustive evaluation over finite domains; cross-checks of assumed contracts against CPython"},
          ],
          "checks": [], "notes": "see DESIGN.md; known findings in known_findings.json", "not_applicable": []}
